@@ -55,6 +55,11 @@ let rec mul = ( * )
 
 let rec sub = fun n m -> Stdlib.max 0 (n-m)
 
+(** val eqb : bool -> bool -> bool **)
+
+let eqb b1 b2 =
+  if b1 then b2 else if b2 then false else true
+
 module Nat =
  struct
   (** val sub : int -> int -> int **)
@@ -1427,6 +1432,11 @@ let store1 s c off x =
 
 let sum_from s lo n0 f init =
   fold_left (fun acc k -> s.sadd acc (f k)) (seq lo n0) init
+
+(** val sum_n : scalar -> (int -> t) -> int -> t **)
+
+let sum_n s f n0 =
+  sum_from s 0 n0 f s.s0
 
 (** val dot_fma :
     scalar -> int -> int -> (int -> t) -> (int -> t) -> t -> t **)
@@ -3772,6 +3782,123 @@ let mask_load_fb n0 mask0 mem0 =
   in
   map reg (seq 0 n0)
 
+(** val sa_step :
+    ('a1 -> 'a1 -> bool) -> ('a1 -> ('a1 -> 'a2) -> 'a2) -> ('a1 -> 'a2) ->
+    'a1 -> 'a1 -> 'a2 **)
+
+let sa_step eqb0 g v i k =
+  if eqb0 k i then g i v else v k
+
+(** val sa_run :
+    ('a1 -> 'a1 -> bool) -> ('a1 -> ('a1 -> 'a2) -> 'a2) -> 'a1 list -> ('a1
+    -> 'a2) -> 'a1 -> 'a2 **)
+
+let sa_run eqb0 g order v0 =
+  fold_left (sa_step eqb0 g) order v0
+
+type mat = int -> int -> t
+
+type vec0 = int -> t
+
+(** val fsub_g : scalar -> mat -> vec0 -> int -> vec0 -> t **)
+
+let fsub_g s l b i y =
+  s.ssub (b i) (sum_n s (fun k -> s.smul (l i k) (y k)) i)
+
+(** val fsub : scalar -> int -> mat -> vec0 -> vec0 **)
+
+let fsub s n0 l b =
+  sa_run (=) (fsub_g s l b) (seq 0 n0) (fun _ -> s.s0)
+
+(** val bsub_g : scalar -> int -> mat -> vec0 -> int -> vec0 -> t **)
+
+let bsub_g s n0 u y i x =
+  s.sdiv
+    (s.ssub (y i)
+      (sum_n s (fun k ->
+        s.smul (u i (add (add i (Stdlib.Int.succ 0)) k))
+          (x (add (add i (Stdlib.Int.succ 0)) k)))
+        (sub (sub n0 (Stdlib.Int.succ 0)) i))) (u i i)
+
+(** val bsub : scalar -> int -> mat -> vec0 -> vec0 **)
+
+let bsub s n0 u y =
+  sa_run (=) (bsub_g s n0 u y) (rev (seq 0 n0)) (fun _ -> s.s0)
+
+type key = bool * (int * int)
+
+(** val key_eqb : key -> key -> bool **)
+
+let key_eqb a b =
+  (&&) ((&&) (eqb (fst a) (fst b)) ((=) (fst (snd a)) (fst (snd b))))
+    ((=) (snd (snd a)) (snd (snd b)))
+
+(** val lk : int -> int -> key **)
+
+let lk i j =
+  (true, (i, j))
+
+(** val uk : int -> int -> key **)
+
+let uk i j =
+  (false, (i, j))
+
+(** val lu_g : scalar -> mat -> key -> (key -> t) -> t **)
+
+let lu_g s a q v =
+  let (isL, p) = q in
+  let (i, j) = p in
+  if isL
+  then s.sdiv
+         (s.ssub (a i j)
+           (sum_n s (fun k -> s.smul (v (lk i k)) (v (uk k j))) j))
+         (v (uk j j))
+  else s.ssub (a i j) (sum_n s (fun k -> s.smul (v (lk i k)) (v (uk k j))) i)
+
+(** val unrank : int -> int -> key **)
+
+let unrank n0 p =
+  let j = Nat.div p (mul (Stdlib.Int.succ (Stdlib.Int.succ 0)) n0) in
+  let r = Nat.modulo p (mul (Stdlib.Int.succ (Stdlib.Int.succ 0)) n0) in
+  if Nat.ltb r n0 then uk r j else lk (sub r n0) j
+
+(** val valid : key -> bool **)
+
+let valid = function
+| (isL, p) -> let (i, j) = p in if isL then (<=) j i else (<=) i j
+
+(** val lu_order : int -> key list **)
+
+let lu_order n0 =
+  filter valid
+    (map (unrank n0)
+      (seq 0 (mul (mul (Stdlib.Int.succ (Stdlib.Int.succ 0)) n0) n0)))
+
+(** val doolittle : scalar -> int -> mat -> key -> t **)
+
+let doolittle s n0 a =
+  sa_run key_eqb (lu_g s a) (lu_order n0) (fun _ -> s.s0)
+
+(** val lu_L : scalar -> int -> mat -> mat **)
+
+let lu_L s n0 a i j =
+  doolittle s n0 a (lk i j)
+
+(** val lu_U : scalar -> int -> mat -> mat **)
+
+let lu_U s n0 a i j =
+  doolittle s n0 a (uk i j)
+
+(** val lu_solve : scalar -> int -> mat -> vec0 -> vec0 **)
+
+let lu_solve s n0 a b =
+  bsub s n0 (lu_U s n0 a) (fsub s n0 (lu_L s n0 a) b)
+
+(** val lu_inverse : scalar -> int -> mat -> mat **)
+
+let lu_inverse s n0 a i j =
+  lu_solve s n0 a (fun r -> if (=) r j then s.s1 else s.s0) i
+
 (** val run_matmul_Z :
     cfg -> ety -> int -> int -> int -> z list -> z list -> z list **)
 
@@ -4284,3 +4411,31 @@ let run_mask_store n0 mask0 v mem0 =
 
 let run_mask_load n0 mask0 mem0 =
   mask_load_fb n0 mask0 (fun q -> nth q mem0 Z0)
+
+(** val mat_of : int -> z list -> int -> int -> z **)
+
+let mat_of n0 l i j =
+  nth (add (mul i n0) j) l Z0
+
+(** val list_of : int -> int -> (int -> int -> z) -> z list **)
+
+let list_of n0 m a =
+  flat_map (fun i -> map (a i) (seq 0 m)) (seq 0 n0)
+
+(** val run_lu : int -> z list -> z list * z list **)
+
+let run_lu n0 a =
+  ((list_of n0 n0 (Obj.magic lu_L zS n0 (mat_of n0 a))),
+    (list_of n0 n0 (Obj.magic lu_U zS n0 (mat_of n0 a))))
+
+(** val run_lu_inverse : int -> z list -> z list **)
+
+let run_lu_inverse n0 a =
+  list_of n0 n0 (Obj.magic lu_inverse zS n0 (mat_of n0 a))
+
+(** val run_lu_solve : int -> int -> z list -> z list -> z list **)
+
+let run_lu_solve n0 c a b =
+  list_of n0 c (fun i j ->
+    Obj.magic lu_solve zS n0 (mat_of n0 a) (fun r ->
+      nth (add (mul r c) j) (Obj.magic b) (Obj.magic Z0)) i)
